@@ -375,7 +375,7 @@ void run_c14(const RunOpts& o, Result& res) {
   res.num["ops"] = (double)nops;
   res.num["f.guard_contention"] = (double)vs_guard_contentions();
   { long w = 0, n = 0, e = 0, to = 0; vs_cv_stats(&w, &n, &e, &to);
-    if (w || n) { res.num["f.condvar_wait"] = (double)w; res.num["n.condvar_notify"] = (double)n; res.num["n.condvar_notify_without_waiter"] = (double)e; res.num["f.condvar_timeout"] = (double)to; res.num["f.condvar_spurious_wakeup"] = (double)vs_cv_spurious_fired(); } }
+    if (w || n) { res.num["f.condvar_wait"] = (double)w; res.num["n.condvar_notify"] = (double)n; res.num["n.condvar_notify_without_waiter"] = (double)e; res.num["f.condvar_timeout"] = (double)to; res.num["f.condvar_spurious_wakeup"] = (double)vs_cv_spurious_fired(); res.num["f.condvar_notify_one_out_of_order"] = (double)vs_cv_nonfifo(); } }
   res.num["f.preempt"] = (double)vs_preempts_fired();
   if (vs_spin_yields()) res.num["f.spin_yield"] = (double)vs_spin_yields();
   res.num["max_entries_between_points"] = (double)vs_max_entry_gap();
